@@ -824,6 +824,35 @@ def check_open_flags(chk, tu, macros):
             chk.expect(p.ret != SUCCESS, 'R12.6', 'path_open:failure-reported', 'path_open returns SUCCESS although open() failed', 'path_open:error-discipline')
 
 
+def check_path_open_result(chk, tu, rule):
+    """the number path_open reports to the guest is the number the descriptor table issued: stored as a full u32 (descriptor numbers are
+    never reused, a long-running guest gets numbers beyond any narrower width), and the slot of that number holds the native descriptor
+    open() returned - both ABI generations"""
+    eps = W.entry_points(tu)
+    RD = O.RIGHTS_FD_READ
+    n = 0
+    for gen, f in sorted(eps['path_open'].items()):
+        if len(astdb.fn_params(f)) != 10:
+            raise AnalysisBroken('%s/path_open takes %d parameters' % (gen, len(astdb.fn_params(f))))
+
+        def mk(it, st):
+            return [unk('instance'), 3, 0, unk('path', 'unsigned int'), 5, 0, RD, 0, 0, unk('fdout', 'unsigned int')]
+        paths = W.explore_entry(tu, f['name'], mk, lambda: std_table(0), errno_value=5, max_paths=2000)
+        succ = [p for p in paths if p.ret == SUCCESS]
+        chk.require(succ, '%s/path_open has no success path' % gen)
+        for p in succ:
+            gst = [(a[0], offset_from(a[1], unk('fdout')), a[2]) for n_, a, l in p.events if n_ == 'gstore']
+            t = p.state['table']
+            ok = gst == [(32, 0, 4)] and len(t) == 5 and is_sym(t[4]['fd']) and t[4]['fd'].op == 'call' and t[4]['fd'].args[0] == 'open'
+            n += 1
+            chk.expect(ok, rule, '%s/path_open:reported-number' % gen,
+                       '%s/path_open stores (width in bits, offset from the result pointer, value) %r and the table holds %r beyond the four '
+                       'descriptors it started with; expected the issued number 4 stored as 32 bits at the result pointer, and slot 4 holding '
+                       'the native descriptor returned by open() - a narrower store reports a number that, after enough opens, denotes '
+                       'another live descriptor' % (gen, gst, [d['fd'] for d in t[4:]]), 'path_open:result')
+    return n
+
+
 def stores_layout(events, base):
     out = []
     for n, a, l in events:
